@@ -20,6 +20,11 @@ llvm-cov-14 report "${objs[@]}" -instr-profile="$D/all.profdata" "$REPO/src" 2>/
 echo; echo "== functions with unexecuted lines (file:function missed/total lines) =="
 llvm-cov-14 report "${objs[@]}" -instr-profile="$D/all.profdata" -show-functions "$REPO"/src/containers/*.c "$REPO"/src/utilities/*.c "$REPO"/src/extensions/qaconf.c "$REPO"/src/extensions/qconfig.c "$REPO"/src/internal/*.c 2>/dev/null \
   | awk '/^File /{f=$2} /^[A-Za-z_]/ && $1!="File" && $1!="Name" && $1!="TOTAL" { if ($6+0>0) printf "%s %s %d/%d\n", f, $1, $6, $5 }' | sed "s#'$REPO/##;s#':##"
+for f in ${COV_BRANCHES:-}; do   # COV_BRANCHES="src/..." : branches of which one side was never taken
+  echo "== one-sided branches of $f =="
+  llvm-cov-14 show "${objs[@]}" -instr-profile="$D/all.profdata" -show-branches=count "$REPO/$f" 2>/dev/null \
+    | awk '/^ +[0-9]+\|/{line=$0} /Branch \(/{ if ($0 ~ /True: 0[,\]]/ || $0 ~ /False: 0[,\]]/) { if (line!=last) print substr(line,1,150); last=line; print "        " $0 } }'
+done
 for f in ${COV_SHOW:-}; do   # COV_SHOW="src/containers/qlist.c ..." : listing of the unexecuted lines of these files
   echo "== unexecuted lines of $f =="
   llvm-cov-14 show "${objs[@]}" -instr-profile="$D/all.profdata" "$REPO/$f" 2>/dev/null | grep -E "^ +[0-9]+\| +0\|" | cut -c1-160
